@@ -68,6 +68,25 @@ where
     _data: PhantomData<&'a (T, R)>,
 }
 
+// Verification hook (off by default, enabled only with `--cfg bacon_verif`):
+// read-only view of the step bounds held by the builder.
+#[cfg(bacon_verif)]
+impl<'a, N, D, const O: usize, T, F, R> RungeKutta<'a, N, D, O, T, F, R>
+where
+    D: Dimension,
+    N: ComplexField + Copy,
+    T: Clone,
+    F: Derivative<N, D, T> + 'a,
+    R: RungeKuttaCoefficients<O, RealField = N::RealField>,
+    DefaultAllocator: Allocator<N, D>,
+    DefaultAllocator: Allocator<N, Const<O>>,
+{
+    #[doc(hidden)]
+    pub fn verif_dt_bounds(&self) -> (Option<N::RealField>, Option<N::RealField>) {
+        (self.init_dt_min.clone(), self.init_dt_max.clone())
+    }
+}
+
 /// The solver for any Runge-Kutta method
 /// Users should not use this type directly, and should
 /// instead get it from a specific RungeKutta struct
